@@ -498,12 +498,13 @@ package dmap
 // One sampled key is evicted: up to lruSamples present keys are sampled (at least one whenever the fragment is not
 // empty - a Put must not fail because no victim was found), the least recently used of the samples goes.
 //@ func (dm *DMap) evictKeyWithLRU(e *env) error
-//@   props C10
+//@   props C10 C04
 //@   flag termination
 //@   flag wired 3
 //@   requires #env: e != nil && e.fragment != nil && e.fragment.storage != nil && dm.config != nil
 //@   requires #samples: dm.config.lruSamples >= 1
 //@   requires #not_empty: e.fragment.storage.count > 0
+//@   atcall dmap\.DMap\)\.deleteOnCluster$ requires #the_victim_is_deleted_under_its_own_key [C10 C04]: e.fragment.storage.has[item.HKey] && key == e.fragment.storage.key[item.HKey]
 //@   ensures #finds_a_victim [C10] internal: len(items) >= 1 && len(items) <= dm.config.lruSamples
 //@   ensures #samples_are_present [C10] internal: forall k int :: 0 <= k && k < len(items) ==> old(e.fragment.storage.has)[items[k].HKey] && items[k].LastAccess == old(e.fragment.storage.la)[items[k].HKey]
 //@   ensures #least_recent_of_samples [C10] internal: forall k int :: 0 <= k && k < len(items) ==> items[0].LastAccess <= items[k].LastAccess
@@ -594,12 +595,14 @@ package dmap
 //@   requires #routing [C07]: dm != nil && dm.s != nil && dm.s.rt != nil && e != nil && dm.s.parts() && dm.s.primary.count > 0
 //@   atcall locker\.Locker\)\.Lock$ requires #read_modify_write_runs_on_the_partition_owner [C07]: dm.ownsKeyOf(e)
 //@   atcall dmap\.DMap\)\.(Get|put)$ requires #inside_the_keys_critical_section [C07]: dm.s.locker.held[atomicKey]
+//@   ensures #lock_name_is_the_key [C07] internal: atomicKey == e.dmap + e.key
 
 //@ func (dm *DMap) atomicIncrDecr(cmd string, e *env, delta int) (int, error)
 //@   props C09 C07
 //@   requires #routing [C07]: dm != nil && dm.s != nil && dm.s.rt != nil && dm.s.parts() && dm.s.primary.count > 0
 //@   atcall locker\.Locker\)\.Lock$ requires #read_modify_write_runs_on_the_partition_owner [C07]: dm.ownsKeyOf(e)
 //@   atcall dmap\.DMap\)\.(loadCurrentAtomicInt|put)$ requires #inside_the_keys_critical_section [C07]: dm.s.locker.held[atomicKey]
+//@   ensures #forwards_the_same_operation [C07] internal: rcmd != nil ==> rcmd.kind == ite(cmd == protocol.DMap.Incr, "dm.incr", "dm.decr") && rcmd.dmap == e.dmap && rcmd.key == e.key && rcmd.delta == delta
 //@   ensures #new_value [C07] internal: result.1 == nil && -4611686018427387904 < current && current < 4611686018427387904 && -4611686018427387904 < delta && delta < 4611686018427387904 ==>
 //@                updated == ite(cmd == protocol.DMap.Incr, current + delta, current - delta) && result.0 == updated
 //@   ensures #lock_name_is_the_key [C07] internal: atomicKey == e.dmap + e.key
@@ -607,9 +610,9 @@ package dmap
 //@   flag wired 3
 //@   flag skip nil
 //@   requires #env: e != nil && e.putConfig != nil && !e.putConfig.HasEX && !e.putConfig.HasPX && !e.putConfig.HasEXAT && !e.putConfig.HasPXAT && !e.putConfig.OnlyUpdateTTL
-//@   ensures #keeps_expiry [C09] internal: result.1 == nil && ttl != 0 && 0 <= ttl && ttl < 4611686018427 ==> e.putConfig.HasPX && !e.putConfig.HasEX && !e.putConfig.OnlyUpdateTTL &&
+//@   ensures #keeps_expiry [C09 C07] internal: result.1 == nil && ttl != 0 && 0 <= ttl && ttl < 4611686018427 ==> e.putConfig.HasPX && !e.putConfig.HasEX && !e.putConfig.OnlyUpdateTTL &&
 //@                ttl * 1000000 - now() <= e.putConfig.PX && e.putConfig.PX <= ttl * 1000000 - old(now())
-//@   ensures #no_expiry_stays_none [C09] internal: result.1 == nil && ttl == 0 ==> !e.putConfig.HasPX && !e.putConfig.HasEX && !e.putConfig.HasEXAT && !e.putConfig.HasPXAT
+//@   ensures #no_expiry_stays_none [C09 C07] internal: result.1 == nil && ttl == 0 ==> !e.putConfig.HasPX && !e.putConfig.HasEX && !e.putConfig.HasEXAT && !e.putConfig.HasPXAT
 
 // ---------------------------------------------------------------------------------------------------
 // C19: Destroy. The fragments a partition holds (a sync.Map keyed by fragment name) are seen as a ghost set of
